@@ -141,12 +141,17 @@ def applyOutcome (db : Db) (k : Key) (now : Int) (o : Fetch.Outcome) : Db × Boo
     | _ => (db, false)
   (Cache.finishFetch db1 k, ok)
 
-/-- a task whose last fetch has completed: it republishes — the diagnosis of ITS revision — iff it
-    fetched something -/
+/-- a task whose last fetch has completed: it republishes iff it fetched something — the diagnosis of the text
+    its document has NOW (re-read from the document cache; nothing if the document was closed meanwhile) -/
 def finishTask (s : Srv) (i : Nat) (t : Task) : Srv × List Msg :=
   let s2 := { s with tasks := s.tasks.eraseIdx i }
   match t.uri with
-  | some uri => if t.fetched.isEmpty then (s2, []) else (s2, [.pub uri (diagnose s2 (String.ofList t.reg) t.pkgs)])
+  | some uri =>
+    if t.fetched.isEmpty then (s2, [])
+    else
+      match s2.docs.find? (·.1 == uri) with
+      | some (_, pkgs) => (s2, [.pub uri (diagnose s2 (String.ofList t.reg) pkgs)])
+      | none => (s2, [])
   | none => (s2, [])
 
 /-- task `t` holds the claim of (reg, name) and waits for the registry -/
